@@ -87,4 +87,5 @@ def main (args : List String) : IO UInt32 := do
   | ["post"] => Vsgm.Post.postMain stdin stdout; return 0
   | ["caseu"] => Vsgm.Base.Case.Cli.caseuMain stdin stdout; stdout.flush; return 0
   | ["wb"] => Vsgm.WB.wbMain stdin stdout; return 0
+  | ["setindent"] => Vsgm.Indent.Cli.setindentMain stdin stdout; return 0
   | _ => IO.eprintln "usage: driver <mode>"; return 2
